@@ -89,6 +89,20 @@ CLAIMS['C05'] = (
     'confirming pair configure); generated_source is not among the kinds explored',
     'DESIGN.md §6 C05')
 
+CLAIMS['C11'] = (
+    'exploration',
+    'bounded exhaustive (pattern, path) and (tree, filter) enumeration on the real matcher and the real find_files builtin against a brute-force glob reference',
+    'Layer 1: every glob over a 9-symbol component grammar (1-3 components, 4 with two ** runs, with/without '
+    'trailing slash) x type values, and every 1-2 pattern filter with exclude/extra lists, is evaluated with the real '
+    'PathGlob/FileFilter on every path (file and directory) of depth <=3/4 over names with dots, spaces, hidden, '
+    'backup and bracket names and compared with models/globref; every directory-pruning verdict is checked for '
+    'soundness. Layer 2: the real find_files/find_paths, called from a build.bfg through the real configure, on all '
+    'directory trees with <=4/5 entries (plus symlinked-directory variants) x ~250-400 filters x {cached, cached '
+    'again, uncached}: results equal the reference over an unpruned listing, no duplicates, every entry exists; '
+    'distribution membership for dist/cache/filter-function combinations is read from the generated dist rule.',
+    'trusted: models/globref.py as the documented semantics (Appendix C); stated don\'t-care regions',
+    'DESIGN.md §6 C11, Appendix C')
+
 # --- more claims are appended above this line ---
 NOT_YET = 'check not built yet in this session (see DESIGN.md §10 build order); not claimed until it is'
 NOT_APPLICABLE = {}
